@@ -65,6 +65,7 @@ ApplyFe(s, e) ==
        [] e.op = "mul" -> put(FMul(a, b))
        [] e.op = "square" -> put(FSq(a))
        [] e.op = "square_and_double" -> put(FAdd(FSq(a), FSq(a)))
+       [] e.op = "mul_small" -> put(FMulSmall(a, IF Has(e, "nine") /\ e.nine = 1 THEN 9 ELSE 121666))      \* the ladders' constants (verification hook)
        [] e.op = "square_repeatdly" -> put(FoldLeft(LAMBDA acc, i: FSq(acc), a, Rng(1, e.n)))
        [] e.op = "invert" -> put(FInv(a))
        [] e.op = "pow25523" -> put(FPow22523(a))
